@@ -608,6 +608,76 @@ theorem compileX_pure (tys : List ITy) (off toff : Nat → Int) (e : E) : ∀ (t
   | postinc i => intro t code k h; simp [compileE] at h
   | postdec i => intro t code k h; simp [compileE] at h
 
+/-! ### the layout hypothesis, from offsets -/
+
+theorem addrOf_toNat (bp : BitVec 64) (d N : Int) (h1 : -N ≤ d) (h2 : d ≤ 0) (hN : N ≤ bp.toNat) :
+    ((addrOf bp d).toNat : Int) = bp.toNat + d := by
+  have := bp.isLt
+  simp only [addrOf, BitVec.toNat_add, BitVec.toNat_ofInt]
+  omega
+
+theorem szOf_eq {tys : List ITy} {i : Nat} {t : ITy} (h : tys[i]? = some t) : szOf tys i = t.size := by
+  simp [szOf, h]
+
+theorem lt_of_getElem? {tys : List ITy} {i : Nat} {t : ITy} (h : tys[i]? = some t) : i < tys.length := by
+  by_cases hl : i < tys.length
+  · exact hl
+  · simp [List.getElem?_eq_none (Nat.le_of_not_lt hl)] at h
+
+/-- **a frame whose offsets pass `layoutOK` satisfies the layout hypothesis of `C01_value_effects`** whenever
+    `%rbp = %rsp + N` (what the prologue `push %rbp; mov %rsp, %rbp; sub $N, %rsp` establishes) -/
+theorem lay_of_layoutOK (tys : List ITy) (off toff : Nat → Int) (K : Nat) (N : Int) (h : layoutOK tys off toff K N = true)
+    (bp : BitVec 64) (sp : Nat) (hbp : (bp.toNat : Int) = sp + N) (hhi : bp.toNat + 8 ≤ 2 ^ 64) :
+    Lay tys off toff K sp bp := by
+  simp only [layoutOK, Bool.and_eq_true, List.all_eq_true, List.mem_range, Bool.or_eq_true, beq_iff_eq, inFrame, disjI,
+    decide_eq_true_eq] at h
+  obtain ⟨⟨⟨⟨hv, ht⟩, hvv⟩, hvt⟩, htt⟩ := h
+  have av : ∀ i t, tys[i]? = some t → ((addrOf bp (off i)).toNat : Int) = bp.toNat + off i ∧ -N ≤ off i ∧ off i + t.size ≤ 0 := by
+    intro i t hi
+    have := hv i (lt_of_getElem? hi)
+    rw [szOf_eq hi] at this
+    exact ⟨addrOf_toNat bp _ N this.1 (by omega) (by omega), this.1, this.2⟩
+  have at' : ∀ k, k < K → ((addrOf bp (toff k)).toNat : Int) = bp.toNat + toff k ∧ -N ≤ toff k ∧ toff k + 8 ≤ 0 := by
+    intro k hk
+    have := ht k hk
+    exact ⟨addrOf_toNat bp _ N this.1 (by omega) (by omega), this.1, by simpa using this.2⟩
+  refine ⟨?_, ?_, ?_, ?_, ?_⟩
+  · intro i t hi
+    obtain ⟨e, h1, h2⟩ := av i t hi
+    have := size_pos t
+    omega
+  · intro k hk
+    obtain ⟨e, h1, h2⟩ := at' k hk
+    omega
+  · intro i j ti tj hij hi hj
+    obtain ⟨ei, _, _⟩ := av i ti hi
+    obtain ⟨ej, _, _⟩ := av j tj hj
+    have := hvv i (lt_of_getElem? hi) j (lt_of_getElem? hj)
+    rw [szOf_eq hi, szOf_eq hj] at this
+    unfold sep
+    rcases this with h | h | h
+    · exact absurd h hij
+    · left; omega
+    · right; omega
+  · intro i ti k hi hk
+    obtain ⟨ei, _, _⟩ := av i ti hi
+    obtain ⟨ek, _, _⟩ := at' k hk
+    have := hvt i (lt_of_getElem? hi) k hk
+    rw [szOf_eq hi] at this
+    unfold sep
+    rcases this with h | h
+    · left; omega
+    · right; omega
+  · intro k l hk hl hkl
+    obtain ⟨ek, _, _⟩ := at' k hk
+    obtain ⟨el, _, _⟩ := at' l hl
+    have := htt k hk l hl
+    unfold sep
+    rcases this with h | h | h
+    · exact absurd h hkl
+    · left; omega
+    · right; omega
+
 /-! ### a concrete instance (non-vacuity of `C01_value_effects`): `(v1 += v0, v0++ + v1)`, `signed char v0 = -3`, `unsigned v1 = 7` -/
 
 def exXE : E := .comma (.opassign .add 1 (.var 0)) (.bin .add (.postinc 0) (.var 1))
